@@ -99,7 +99,19 @@ impl Rule {
         all_invalid_parameters.append(&mut invalid_scope_parameters);
 
         if all_invalid_parameters.is_empty() {
-            Ok(())
+            match &self.parameters {
+                None => Ok(()),
+                Some(parameters) => {
+                    let predicates = std::iter::once(&self.head).chain(self.body.iter());
+                    for term in predicates.flat_map(|p| p.terms.iter()) {
+                        term.check_map_key_parameters(parameters)?;
+                    }
+                    for op in self.expressions.iter().flat_map(|e| e.ops.iter()) {
+                        op.check_map_key_parameters(parameters)?;
+                    }
+                    Ok(())
+                }
+            }
         } else {
             Err(error::Token::Language(
                 biscuit_parser::error::LanguageError::Parameters {
